@@ -121,6 +121,8 @@ def run_all ():
   expect('norm keeps an attribute alias across calls that receive the owner', 'tbl[m]' in out)
   out = normed("class K:\n  def f(self, x):\n    tbl = self.handlers\n    for m in x:\n      log.debug(tbl[m])\n", {'K.f': ['self', 'x', 'm'], '<module>': [], '<class K>': []})
   expect('norm expands an attribute alias when nothing can re-bind it', 'self.handlers[m]' in out)
+  out = normed("def make(ev):\n  def handler(con, parts):\n    con.raiseEvent(ev, parts[0])\n  return handler\nhandle_A = make(EventA)\n", {'<module>': []})
+  expect('norm instantiates a simple function factory', 'def handle_A(con, parts)' in out and 'con.raiseEvent(EventA, parts[0])' in out)
   # ---- evaluation along paths ----------------------------------------------------------------------------------
   class _M(object):
     name = 'm'; short = 'm'
